@@ -566,6 +566,37 @@ fn run(e: &Engine) {
         },
         check,
     );
+    // every defined suffix with EVERY 7-bit byte value substituted at, or inserted before, every position
+    // (control characters, punctuation, digits, the other letter case): a token built by device code may
+    // carry any bytes, and only the table's spellings (in any letter case) are defined
+    e.enumerate::<Case, _, _>(
+        "every-defined-suffix-every-byte-substituted",
+        ALL_Q.len() as u64,
+        |p, f| {
+            let q = ALL_Q[p as usize];
+            let mut bases: Vec<&'static str> = table(q).iter().map(|(s, _, _)| *s).collect();
+            bases.extend(db_table(q).iter().map(|(s, _)| *s));
+            for base in bases {
+                for pos in 0..=base.len() {
+                    for b in 0u8..128 {
+                        for insert in [false, true] {
+                            if !insert && pos == base.len() {
+                                continue;
+                            }
+                            let mut full = base.as_bytes().to_vec();
+                            if insert { full.insert(pos, b) } else { full[pos] = b }
+                            let lower = (pos + b as usize) % 2 == 1;
+                            let s: String = full.iter().enumerate().map(|(i, c)| if lower && i != pos { c.to_ascii_lowercase() as char } else { *c as char }).collect();
+                            if !f(Case::Plain { q, single: b & 1 == 1, lit: "1".into(), suffix: Some(s) }) {
+                                return;
+                            }
+                        }
+                    }
+                }
+            }
+        },
+        check,
+    );
     // strings assembled from pieces of defined suffixes: two suffixes glued together (also one with itself),
     // and the first k + last k characters of a suffix around a filler - what a comparison of prefixes,
     // tails or words, instead of the whole string and its length, lets through
